@@ -165,6 +165,7 @@ func analyse(def *propDef, tier string, overlay map[string][]byte) (c *Ctx, err 
 	}
 	c = newCtx(def.ID, tier, P)
 	def.Run(c)
+	runLockBalanced(c, def.ID)
 	return c, nil
 }
 
